@@ -21,6 +21,7 @@ RULE = (
     "state with pairwise distinct entries x variables optionally supplied as caller-held symbols in a drawn subset and key order; all three compactness levels plus one out-of-range level (-2,-1,3,5: documented as <=0 / >1) are compiled for every case. "
     "Non-trivial = >=2 links and (>=2 queued origins or >=2 VSL links). Distinct = SHA-1 of the case."
 )
+RULE += ' In 1/8 of the cases one link is replaced by a chain of 14-25 short links (more than 16 elements of one kind).'
 BUDGET = {"quick": {"examples": 120, "shards": 4}, "thorough": {"fuzz_runs": 3000, "examples": 2000, "shards": 16}}
 EXPECTED_LABELS = ("caller-symbols", "engine:SX", "engine:MX", "more_out", "sympars", "opts", "feedback", "vsl:empty", "origin:ideal",
                    "dest:cong", "origin:main", "origin:simp_lim")
